@@ -92,8 +92,9 @@ pub fn run(a: &Args) {
                 emit("soup", &t, k, pipeline(&t, k, &dir));
             }
             2 => {
-                let g = c09::random_ebnf(&mut rng, i % 8 == 2);
-                let t = g.par(rng.chance(1, 2));
+                // valid grammars: random EBNF, and BNF grammars with many shared prefixes of different lengths (the
+                // shapes left factoring has to cope with)
+                let t = if i % 8 == 2 { crate::c10::prefixy(&mut rng).to_par(false) } else { let g = c09::random_ebnf(&mut rng, i % 16 == 6); g.par(rng.chance(1, 2)) };
                 emit("valid", &t, k, pipeline(&t, k, &dir));
             }
             _ => {
